@@ -26,7 +26,8 @@ the operations `piCoef/dropPi/addPi/neg` of this view.
 Code as patched (docs/patches/C08_*.patch): `gamma_multiple_2` computes the odd double factorial in
 arbitrary precision (the C++ `int j` overflows from gamma(23/2) on); floor/ceiling/truncate of an exact
 Complex act on both parts (the C++ returns the argument unchanged); `sign` of an exact Complex with
-non-zero real part stays unevaluated (the C++ builds an object failing `Sign::is_canonical`).
+non-zero real part stays unevaluated (the C++ builds an object failing `Sign::is_canonical`); `atan2(0, x)`
+with a symbolic `x` stays unevaluated (the C++ builds an object failing `ATan2::is_canonical`).
 -/
 import SymVerif.Model.Expr
 import SymVerif.Model.ExprEq
@@ -538,8 +539,9 @@ def atan2Ctor (num den : Expr) (quot : Option Expr) : Except Err Expr :=
     | some q =>
       match lookupTct q with
       | none =>
-        -- ATan2::is_canonical rejects num = 0, num = ±den
-        if isInt num 0 then .error .assert else .ok (.app "ATan2" [num, den])
+        -- (as patched, C08_H: `ATan2::is_canonical` accepts num = 0 with a non-number den; the C++ as it is
+        -- builds an object failing the assertion)
+        .ok (.app "ATan2" [num, den])
       | some vr =>
         match recipeRat vr with
         | none => .error .skip
